@@ -1227,6 +1227,21 @@ func (e *Engine) selectTree(cells []Value, idx *Term, lo, hi int) Value {
 	if same {
 		return cells[lo]
 	}
+	// affine run: cells[i] == i + k (mod 256) for constant bytes, e.g. identity / case tables
+	if t0, ok := cells[lo].(*Term); ok && t0.IsConst() && t0.w == 8 && hi <= 256 {
+		k := (t0.val - uint64(lo)) & 0xff
+		affine := true
+		for i := lo + 1; i < hi; i++ {
+			ti, ok := cells[i].(*Term)
+			if !ok || !ti.IsConst() || ti.w != 8 || (ti.val-uint64(i))&0xff != k {
+				affine = false
+				break
+			}
+		}
+		if affine {
+			return e.ctx.Bin(OpAdd, e.ctx.Extract(idx, 7, 0), e.ctx.BV(8, k))
+		}
+	}
 	mid := (lo + hi) / 2
 	a := e.selectTree(cells, idx, lo, mid)
 	b := e.selectTree(cells, idx, mid, hi)
